@@ -771,12 +771,17 @@ func (w *bWorld) genOpaque() (string, []workload.PatchDesc) {
 	doc, pd := workload.OpaqueDoc(keys, svcs, uris, note, w.nextMark())
 
 	// a document may spell out that it has no services (or no keys) with an empty list: nothing is added for it
+	// (or with null, which is how a client written in Go marshals a list it never filled)
 	if k.Draw(5, "opaque.emptylist") == 0 {
+		empty := []string{"[]", "null"}[k.Draw(2, "opaque.emptylist.spelling")]
+
 		switch {
 		case len(svcs) == 0:
-			doc = `{"service":[],` + doc[1:]
+			doc = `{"service":` + empty + `,` + doc[1:]
 		case len(keys) == 0:
-			doc = `{"publicKey":[],` + doc[1:]
+			doc = `{"publicKey":` + empty + `,` + doc[1:]
+		case len(uris) == 0:
+			doc = `{"alsoKnownAs":` + empty + `,` + doc[1:]
 		}
 	}
 
@@ -786,7 +791,13 @@ func (w *bWorld) genOpaque() (string, []workload.PatchDesc) {
 // hasEmptyList: the opaque document spells out an empty key or service list (the builder may refuse such a document; a
 // request it does build from it must be accepted and mean the same as without the empty member).
 func hasEmptyList(opaque string) bool {
-	return strings.Contains(opaque, `"service":[]`) || strings.Contains(opaque, `"publicKey":[]`)
+	for _, m := range []string{"service", "publicKey", "alsoKnownAs"} {
+		if strings.Contains(opaque, `"`+m+`":[]`) || strings.Contains(opaque, `"`+m+`":null`) {
+			return true
+		}
+	}
+
+	return false
 }
 
 // ---------------------------------------------------------------- clients
